@@ -348,6 +348,55 @@ def check_allocator(ctx, tu, tag):
     return n
 
 
+def size_covers(sa, N, sz, lo, hi, p):
+    """Is the requested byte count `sa` at least n*sizeof(T) for every n in [lo, hi] (the range of n on path p)?
+    -> (True, description) | (False, (key-suffix, reason)) | (None, why-unrecognised).
+    Accepted forms: n*sizeof(T) itself; n*sizeof(T) plus a non-negative padding that is a polynomial in n; rounding up to a
+    multiple of a power of two a with a full-width mask, (n*sizeof(T) + a-1) & ~(a-1).  Wrapping of the sub-expressions is a
+    separate obligation (wrap events).  Rejected: anything whose value is provably smaller than n*sizeof(T) for some n of the
+    range - in particular an AND with a constant whose high bits are clear (the result is bounded by the constant while
+    n*sizeof(T) is not)."""
+    want = N * sz
+    Na = N.as_atom()
+    if sa == want:
+        return True, want.show()
+    bnd = lambda a: (lo, hi) if a == Na else p.bounds(a)
+    a = sa.as_atom() if isinstance(sa, Poly) else None
+    if isinstance(a, tuple) and a and a[0] == 'and' and len(a) == 3:
+        ops = [a[1], a[2]]
+        consts = [x for x in ops if isinstance(x, Poly) and x.as_int() is not None]
+        others = [x for x in ops if not (isinstance(x, Poly) and x.as_int() is not None)]
+        if len(consts) != 1 or len(others) != 1 or not isinstance(others[0], Poly):
+            return None, 'bit-and of two non-constant values'
+        mask, P = consts[0].as_int(), others[0]
+        low = SIZE_MAX + 1 - mask              # a full-width alignment mask is 2^64 - a with a a power of two
+        if 0 < low <= 2 ** 63 and (low & (low - 1)) == 0:
+            if not all(x == Na for x in P.atoms(deep=False)):
+                return None, 'the masked value is not a polynomial in n'
+            d = P - want
+            dlo, dhi = d.range(bnd)
+            if dlo >= low - 1:
+                return True, '%s rounded up to a multiple of %d' % (want.show(), low)
+            if dhi < low - 1:
+                return False, ('size-rounded-down', 'masking with ~%d rounds `%s` *down*, below n * sizeof(T) (only adding at least %d '
+                               'first rounds up)' % (low - 1, P.show(), low - 1))
+            return None, 'padding before the mask is not uniform'
+        # a mask with clear high bits: the result never exceeds the mask, n*sizeof(T) does
+        wlo, whi = want.range(bnd)
+        if whi > mask:
+            first = mask // sz + 1
+            return False, ('size-truncated-by-mask', 'the bit mask %#x has its high bits clear (a %d-bit mask widened to size_t), so the '
+                           'result is at most %d while n * sizeof(T) reaches %d: for n in %s the block is too small'
+                           % (mask, mask.bit_length(), mask, int(whi), rng(max(lo, first), hi)))
+        return None, 'bit-and with the constant %#x' % mask
+    if isinstance(sa, Poly) and all(x == Na for x in sa.atoms(deep=False)):
+        dlo, dhi = (sa - want).range(bnd)
+        if dlo >= 0:
+            return True, sa.show()
+        return False, ('wrong-size', 'for some n in %s it is smaller by up to %d bytes' % (rng(lo, hi), int(-dlo)))
+    return None, 'unrecognised size expression'
+
+
 def check_allocate_paths(ctx, R, inst, key, tu, f, paths, sz, A, M):
     N = params(f)[0]
     Na = N.as_atom()
@@ -425,15 +474,19 @@ def check_allocate_paths(ctx, R, inst, key, tu, f, paths, sz, A, M):
             bad = True
             report(ctx, p, R, inst, 'for n in %s the unsigned expression `%s` can wrap' % (rng(lo, hi), wraps[0][1]), wraps[0][2],
                    key + 'size-product-can-wrap')
-            continue
-        if sa != want_size:
+        verdict, why = size_covers(sa, N, sz, lo, hi, p)
+        if verdict is False:
             bad = True
-            if only_params(sa, [N]):
-                report(ctx, p, R, inst, 'alignedMalloc is asked for `%s` bytes, required: n * sizeof(T) = %s'
-                       % (show_val(sa), want_size.show()), e[4], key + 'wrong-size')
-            else:
-                ctx.undecided(R, inst, 'alignedMalloc is asked for `%s` bytes; cannot relate it to n * sizeof(T)' % show_val(sa), e[4])
+            report(ctx, p, R, inst, 'alignedMalloc is asked for `%s` bytes, required: at least n * sizeof(T) = %s; %s'
+                   % (show_val(sa), want_size.show(), why[1]), e[4], key + why[0])
             continue
+        if verdict is None:
+            bad = True
+            ctx.undecided(R, inst, 'alignedMalloc is asked for `%s` bytes; cannot relate it to n * sizeof(T) (%s)' % (show_val(sa), why), e[4])
+            continue
+        if wraps:
+            continue
+        size_note = why
         if aa is None or aa.as_int() != A:
             bad = True
             if aa is not None and aa.as_int() is not None:
@@ -457,7 +510,7 @@ def check_allocate_paths(ctx, R, inst, key, tu, f, paths, sz, A, M):
             else:
                 ctx.undecided(R, inst, 'the function returns %s' % show_val(p.ret), tu.fn_loc(f))
             continue
-        summary.append('n in %s: alignedMalloc(%s, %d)' % (rng(lo, hi), want_size.show(), A))
+        summary.append('n in %s: alignedMalloc(%s, %d)' % (rng(lo, hi), size_note, A))
     if not bad:
         ctx.ok(R, inst, '; '.join(sorted(set(summary))), tu.fn_loc(f))
 
